@@ -27,7 +27,7 @@ Definition hexchar (d : Z) : Z := if d <? 10 then 48 + d else 87 + d.        (* 
 Definition hex4 (c : Z) : str :=
   [hexchar (c / 4096); hexchar ((c / 256) mod 16); hexchar ((c / 16) mod 16); hexchar (c mod 16)].
 
-(** ESCAPE_ASCII: anything outside ' '..'~', and '"' and '\' *)
+(** ESCAPE_ASCII: anything outside ' '..'~', and the double quote and '\' *)
 Definition esc_char (c : Z) : str :=
   if c =? 34 then [92; 34]
   else if c =? 92 then [92; 92]
@@ -47,6 +47,14 @@ Definition s_false : str := [102; 97; 108; 115; 101].
 Definition sep_item : str := [44; 32].      (* ', ' *)
 Definition sep_key : str := [58; 32].       (* ': ' *)
 
+(** sep.join(parts) for a string separator *)
+Fixpoint join_with (sep : str) (parts : list str) : str :=
+  match parts with
+  | [] => []
+  | [x] => x
+  | x :: t => x ++ sep ++ join_with sep t
+  end.
+
 Fixpoint print_value (v : value) : str :=
   match v with
   | VNull => s_null
@@ -54,20 +62,11 @@ Fixpoint print_value (v : value) : str :=
   | VBool false => s_false
   | VInt z => str_of_Z z
   | VStr s => print_string s
-  | VList l =>
-      91 :: (fix items (l : list value) : str :=
-               match l with
-               | [] => []
-               | [x] => print_value x
-               | x :: t => print_value x ++ sep_item ++ items t
-               end) l ++ [93]
+  | VList l => 91 :: join_with sep_item (map print_value l) ++ [93]
   | VDict d =>
-      123 :: (fix items (d : list (str * value)) : str :=
-                match d with
-                | [] => []
-                | [(k, x)] => print_string k ++ sep_key ++ print_value x
-                | (k, x) :: t => print_string k ++ sep_key ++ print_value x ++ sep_item ++ items t
-                end) d ++ [125]
+      123 :: join_with sep_item
+               (map (fun kv => match kv with (k, x) => print_string k ++ sep_key ++ print_value x end) d)
+          ++ [125]
   end.
 
 (** sort_keys=True: code-point lexicographic order of the keys *)
@@ -175,18 +174,19 @@ Fixpoint digits_value (ds : str) (acc : Z) : Z :=
   | c :: t => digits_value t (acc * 10 + (c - 48))
   end.
 
-(** NUMBER_RE: (-?(?:0|[1-9]\d*))(\.\d+)?([eE][-+]?\d+)? ; [s] starts at the first digit *)
+(** NUMBER_RE of json.scanner: optional minus, 0 or a non-zero digit followed by digits, then an optional
+    fraction (dot, digits) and exponent (e or E, optional sign, digits); [s] starts at the first digit *)
 Definition float_follows (rest : str) : bool :=
   match rest with
-  | 46 :: c :: _ => is_digit c
+  | [] => false
   | e :: r =>
-      if (e =? 101) || (e =? 69) then
+      if e =? 46 then match r with c :: _ => is_digit c | [] => false end
+      else if (e =? 101) || (e =? 69) then
         match r with
         | c :: r' => is_digit c || (((c =? 43) || (c =? 45)) && match r' with c' :: _ => is_digit c' | [] => false end)
         | [] => false
         end
       else false
-  | [] => false
   end.
 
 Definition parse_nat (s : str) : presult Z :=
@@ -227,13 +227,13 @@ Fixpoint parse_value (fuel : nat) (s : str) : presult value :=
             end
           else if c =? 91 then
             match skip_ws t with
-            | 93 :: r => POk (VList []) r
-            | t' => parse_elems f t' []
+            | c' :: r => if c' =? 93 then POk (VList []) r else parse_elems f (c' :: r) []
+            | [] => PFail
             end
           else if c =? 123 then
             match skip_ws t with
-            | 125 :: r => POk (VDict []) r
-            | t' => parse_members f t' []
+            | c' :: r => if c' =? 125 then POk (VDict []) r else parse_members f (c' :: r) []
+            | [] => PFail
             end
           else if c =? 110 then
             match starts_with s_null s with Some r => POk VNull r | None => PFail end
@@ -243,10 +243,12 @@ Fixpoint parse_value (fuel : nat) (s : str) : presult value :=
             match starts_with s_false s with Some r => POk (VBool false) r | None => PFail end
           else if c =? 45 then
             match t with
-            | 73 :: _ => PUnmodelled                                  (* -Infinity *)
-            | _ => match parse_nat t with
-                   | POk n r => POk (VInt (- n)) r | PFail => PFail | PUnmodelled => PUnmodelled
-                   end
+            | [] => PFail
+            | c' :: _ =>
+                if c' =? 73 then PUnmodelled                           (* -Infinity *)
+                else match parse_nat t with
+                     | POk n r => POk (VInt (- n)) r | PFail => PFail | PUnmodelled => PUnmodelled
+                     end
             end
           else if is_digit c then
             match parse_nat s with
@@ -277,7 +279,7 @@ with parse_elems (fuel : nat) (s : str) (acc : list value) : presult value :=
       | PUnmodelled => PUnmodelled
       end
   end
-(** [s] is at the first character of a member: must be '"' *)
+(** [s] is at the first character of a member: must be the double quote *)
 with parse_members (fuel : nat) (s : str) (acc : list (str * value)) : presult value :=
   match fuel with
   | O => PUnmodelled
@@ -315,7 +317,7 @@ with parse_members (fuel : nat) (s : str) (acc : list (str * value)) : presult v
 
 (** json.loads: leading whitespace, one value, trailing whitespace, nothing else *)
 Definition json_loads (s : str) : presult value :=
-  match parse_value (S (length s)) (skip_ws s) with
+  match parse_value (2 * length s + 2) (skip_ws s) with
   | POk v r => match skip_ws r with [] => POk v [] | _ :: _ => PFail end
   | PFail => PFail
   | PUnmodelled => PUnmodelled
